@@ -1356,3 +1356,11 @@ M("c10_reset_to_without_realign_revert", ["C10", "C01"], ["C10.R1", "C01.R8"], [
     ("src/raw_bump.rs", """            let addr = align_pos(S::UP, S::MIN_ALIGN, checkpoint.address.get());
             chunk.set_pos_addr(addr);""", """            let _ = chunk;""")])
 
+M("c06_zst_slice_fill_forgets_clones_revert", ["C06"], ["C06.R7"], [
+    ("src/bump_box.rs", """        // The initializer drops the clones made so far if `clone` panics.
+        BumpBox::uninit_zst_slice(len).init_fill(value)""", """        for _ in 1..len {
+            mem::forget(value.clone());
+        }
+        mem::forget(value);
+        unsafe { BumpBox::zst_slice_from_len(len) }""")])
+
